@@ -12,8 +12,9 @@ from vlib.build import surface_from, volume_from, polyline_from
 PROPERTY = "C09"
 RULE = ("One query per case on a generated mesh: polylines (paths, cycles, trees, random simple graphs, lattice graphs with "
         "integer coordinates, wheels/ladders; optional second component and isolated vertices; random relabelling and edge "
-        "orientation), surfaces (vlib.gen_surface.surfaces, <=40 faces, incl. disjoint unions, tori, polygons) and tet meshes "
-        "(vlib.gen_tets.tets, <=25 cells). Entry points shortest_path (target as int / list / set / tuple, 1-6 targets, "
+        "orientation), surfaces (vlib.gen_surface.surfaces, <=40 faces, incl. disjoint unions, tori, polygons; Delaunay disks "
+        "<=30 points; for border queries closed surfaces are mostly punctured by removing 1-2 faces so that the start can be "
+        "several edges away from the border) and tet meshes (vlib.gen_tets.tets, <=25 cells). Entry points shortest_path (target as int / list / set / tuple, 1-6 targets, "
         "duplicates in lists, start among the targets, whole component), shortest_path_to_vertex_set (1-6 targets incl. "
         "singletons, start in the set, optionally extra members in other components) and shortest_path_to_border (start in "
         "a bordered component, incl. start on the border; closed surfaces must raise the documented exception). Weights: "
@@ -577,9 +578,9 @@ def self_test():
 
 
 SUBCHECKS = [
-    SubCheck("point_to_point", query_case("p2p"), fn, quick=2500, thorough=3000),
-    SubCheck("vertex_set", query_case("set"), fn, quick=2000, thorough=2500),
-    SubCheck("border", query_case("border"), fn, quick=1000, thorough=1200),
+    SubCheck("point_to_point", query_case("p2p"), fn, quick=2500, thorough=2500),
+    SubCheck("vertex_set", query_case("set"), fn, quick=2000, thorough=2000),
+    SubCheck("border", query_case("border"), fn, quick=1000, thorough=1000),
 ]
 
 MATCHERS = {}
